@@ -3,6 +3,7 @@ package drv
 import (
 	"fmt"
 	"os"
+	"strings"
 	"sync"
 
 	"github.com/alpacahq/marketstore/v4/verifhook"
@@ -19,6 +20,7 @@ var (
 func OpenMarks() {
 	p := os.Getenv("VERIF_MARK_FILE")
 	if p == "" {
+		verifhook.Set(func(point string, args ...interface{}) { NoteHook(point) })
 		return
 	}
 	f, err := os.OpenFile(p, os.O_WRONLY|os.O_APPEND|os.O_CREATE, 0o644)
@@ -28,7 +30,15 @@ func OpenMarks() {
 	}
 	markFile = f
 	if os.Getenv("VERIF_HOOK_MARKS") != "" {
+		skip := map[string]bool{}
+		for _, p := range strings.Split(os.Getenv("VERIF_HOOK_SKIP"), ",") {
+			skip[p] = true
+		}
 		verifhook.Set(func(point string, args ...interface{}) {
+			NoteHook(point)
+			if skip[point] {
+				return
+			}
 			Mark("hook %s %s", point, fmt.Sprint(args...))
 		})
 	}
